@@ -34,10 +34,12 @@ PROP = {
             # Close frame is out, and the read that waits behind a flush in flight starts when it completes (otherwise the peer's
             # Close is never consumed and Pings go unanswered) — component of C17
             RUN_WSCONC_SMALL],
-        "keys": ["wsstream.*", "wshandshake.stale-session", "wsconc.callback-never-invoked", "wsconc.callback-twice",
+        "keys": ["wsstream.*", "wshandshake.stale-session", "wsconc.callback-never-invoked", "wsconc.callback-twice", "wshandshake.second-session-close",
                  "wsconc.wire-*"],
         # sessions with ValidateUTF8(true) (outside the model): the wire-level clauses of the closing handshake
-        "direct": [{"component": "wsstream", "timeout": 600}],
+        "direct": [{"component": "wsstream", "timeout": 600},
+                   # the closing handshake of a second session on the same Stream (real servers)
+                   {"component": "wshandshake", "args": ["only=second-session"], "keys": ["wshandshake.second-session-close"], "timeout": 300}],
         "rule": "scripts = a client Stream attached to a scripted transport (max message size from {0,1,2,8,16,64,125,126,130,300}) "
                 "followed by up to 30-40 events: peer frames (data, fragments, ping, pong, valid/invalid close, every framing-violation "
                 "class, frames over the maximum), transport EOF/error, and local calls NextFrame/NextMessage/Write/WriteFrame/Flush/Close, "
